@@ -204,7 +204,9 @@ func c01FidelityCases(yield func(vc01.Case) bool) {
 			classes, shapes := []int{0}, []vref.HeaderShape{{}}
 			if c01IsInvocation(dir) {
 				classes, shapes = vref.Lens16, vref.HeaderShapes(0, wide)
-				if !wide && mode != "" {
+				if !wide && (mode != "" || dir == "request-oneway") {
+					// quick: the full shape set on two-way requests of a plain listener; the
+					// one-way flag and the ingress listener mode with five shapes
 					shapes = []vref.HeaderShape{{}, {Pairs: 1, KLen: 1, VLen: 1}, {Pairs: 2, KLen: 255, VLen: 256}, {Pairs: 300, KLen: 1, VLen: 1}, {Pairs: 1, KLen: 1, VLen: 65536}}
 				}
 			}
@@ -278,7 +280,7 @@ func TestVerifC01DubboFidelity(t *testing.T) {
 	a := c01Adapter()
 	complete := vreport.Run(p, c01FidelityCases, func(p *vreport.Part, c vc01.Case) { vc01.CheckFidelity(p, a, c) })
 	p.End(complete,
-		fmt.Sprintf("dirs %v; requests: modes {any listener, ingress_dubbo} x path length %v x attachment shapes (none,1,2,300 pairs x key/value %v, +one 65536-byte value) x binary-argument length %v x id %v; responses/events: payload length %v x id; x newid(quick: complement; thorough: all) x {buffer left alone, overwritten}; + {0,1,mid,max} of status and serialization id; + zero/max frames; + 256 one-byte bodies",
+		fmt.Sprintf("dirs %v; requests: modes {any listener, ingress_dubbo} x path length %v x attachment shapes (none,1,2,300 pairs x key/value %v, +one 65536-byte value; quick: five shapes for request-oneway and for ingress_dubbo) x binary-argument length %v x id %v; responses/events: payload length %v x id; x newid(quick: complement; thorough: all) x {buffer left alone, overwritten}; + {0,1,mid,max} of status and serialization id; + zero/max frames; + 256 one-byte bodies",
 			c01Dirs, vref.Lens16, vref.PairLens, vref.ContentLens, vref.IDs64, vref.ContentLens),
 		"every case = one reference frame (vref.DubboFrame, hessian2 invocation via dubbo-go-hessian2) followed by a second small frame in one read buffer: Decode, consumption == frame length, GetHeader/GetData/SetData(same)/SetRequestId(new)/Encode as xStream.endStream does — three times on the same frame object with the same data buffer object (first try + two retries; ids new, old, new), after which the data buffer must still read the same; bytes must equal the reference encoding with only the id replaced; scribble=true overwrites the whole read buffer after Decode. Requests whose serialization id is not hessian2 are refused by the codec by design (\"not hessian, do not support\"): enumerated, not compared")
 }
